@@ -30,8 +30,12 @@ Go's rules as far as they decide the outcome:
   fails the call (`UnmarshalTypeError`), and `doTokenRequest` then drops the struct.
 
 The consumer is modelled with time in NANOSECONDS as an `Int` because that is where Go computes:
-`time.Duration(tok.ExpiresIn) * time.Second` is an `int64` multiplication that WRAPS. See
-`lifetimeNs` and `Props/C10T.lean` for what that means for negative and for huge `expires_in`.
+`time.Duration(seconds) * time.Second` is an `int64` multiplication that WRAPS.
+-- F41: until the fix the factor was `tok.ExpiresIn` itself and the product did wrap beyond
+±9223372036 s (`lifetimeNsBeforeF41` in `TokenDecodeLemmas.lean` keeps that computation); the code
+now clamps the number of seconds to ±`maxSeconds` first (`clampSeconds`), so the product — still
+modelled as the `int64` product it is — never leaves the range (`wrap64_clamp`). See `lifetimeNs`
+and `Props/C10T.lean` for what that means for negative and for huge `expires_in`.
 
 Core Lean only (linked into the `ocimodel` driver).
 -/
@@ -101,10 +105,20 @@ def second : Int := 1000000000
 /-- Go's `int64` conversion / wrap-around of a mathematical integer. -/
 def wrap64 (i : Int) : Int := (i + 9223372036854775808) % 18446744073709551616 - 9223372036854775808
 
+-- F41: `const maxSeconds = math.MaxInt64 / int64(time.Second)`
+/-- The largest number of seconds whose nanoseconds fit into `int64` (292 years). -/
+def maxSeconds : Int := 9223372036
+
+-- F41: `seconds := min(max(int64(tok.ExpiresIn), -maxSeconds), maxSeconds)`
+/-- The number of seconds the code multiplies: `expires_in`, saturated at ±`maxSeconds`. -/
+def clampSeconds (expiresIn : Int) : Int := min (max expiresIn (-maxSeconds)) maxSeconds
+
+-- F41: the factor is `clampSeconds expiresIn` (it was `expiresIn`)
 /-- The lifetime the code gives a token, in nanoseconds: 60 s when `expires_in` is 0 (or absent),
-else `time.Duration(tok.ExpiresIn) * time.Second` — an `int64` product, which wraps. -/
+else `time.Duration(seconds) * time.Second` — an `int64` product (which would wrap) of the CLAMPED
+number of seconds (which therefore does not: `wrap64_clamp`). -/
 def lifetimeNs (expiresIn : Int) : Int :=
-  if expiresIn = 0 then 60 * second else wrap64 (expiresIn * second)
+  if expiresIn = 0 then 60 * second else wrap64 (clampSeconds expiresIn * second)
 
 /-- `tok.Token`, or `tok.AccessToken` when that is empty. -/
 def pickAccess (w : WireToken) : Bytes := if w.token = [] then w.accessToken else w.token
